@@ -10,7 +10,7 @@ META = dict(
     technique='Rocq/Coq proofs about the standard-library matrices + per-program translation validation evaluated by vm_compute inside Coq',
 )
 
-PRE = (gates.COQ_HEADER + 'From VF Require Import Sim.Ref Sim.Measure Vendor.Qasm.\n')
+PRE = (gates.COQ_HEADER + 'From VF Require Import Sim.Ref Sim.Measure Vendor.Qasm Vendor.QasmRegs Vendor.QasmHarness.\n')
 
 
 # ======================================================================================================
@@ -56,6 +56,7 @@ class Program:
         self.cregs = []          # (name, size, comment or None)
         self.stmts = []          # ('gate', name, [angles], [qubits]) | ('measure', q, reg, bit) | ('reset', q) | ('if', [(reg, op, val)], stmt)
         self.nparams = 0
+        self.undefined = []      # mnemonics outside the included library that were read leniently
 
     def creg_index(self, name):
         for i, (n, _, _) in enumerate(self.cregs):
@@ -64,7 +65,7 @@ class Program:
         raise Malformed(f'classical register {name!r} is not declared')
 
 
-def read_qasm(text):
+def read_qasm(text, lenient=()):
     """text -> Program.  Comments are removed first; the comment on a register declaration line is kept with it."""
     toks, decl_comment = [], {}
     for ln, line in enumerate(text.split('\n')):
@@ -296,7 +297,9 @@ def read_qasm(text):
         if name in GATES:
             take()
             ctor, npar, nq = GATES[name]
-            if (v3 and name in NOT_IN_STDGATES) or (not v3 and name in NOT_IN_QELIB1):
+            if v3 and name in lenient:
+                P.undefined.append(name)      # reported by the caller; read on with the qelib1.inc meaning
+            elif (v3 and name in NOT_IN_STDGATES) or (not v3 and name in NOT_IN_QELIB1):
                 raise Malformed(f'line {t[2]}: gate {name!r} is not defined by the standard library of OpenQASM {v} '
                                 f'({"stdgates.inc" if v3 else "qelib1.inc"})|undefined-gate:{v}:{name}')
             angles = []
@@ -351,6 +354,8 @@ def gate_term(name, angles):
 
 def stmt_term(s, v3):
     b = 'true' if v3 else 'false'
+    if s[0] == 'gate' and v3 and s[1] in NOT_IN_STDGATES:
+        b = 'false'           # lenient reading (the finding is reported separately)
     if s[0] == 'gate':
         return f'(QSGate (qgop FOps {b} {gate_term(s[1], s[2])} {gates.nlist(s[3])}))'
     if s[0] == 'measure':
@@ -380,132 +385,3 @@ def tolerance(precision, nparams):
     return gates.fl(t)
 
 
-# ======================================================================================================
-# exporting
-# ======================================================================================================
-APIS = ['to_qasm', 'to_qasm', 'cirq.qasm', 'QasmOutput']
-
-
-def export(cirq, circuit, order, api, version, precision):
-    """Returns (text, None) or (None, exception)."""
-    try:
-        with warnings.catch_warnings():
-            warnings.simplefilter('ignore')
-            if api == 'to_qasm':
-                return circuit.to_qasm(precision=precision, qubit_order=order, version=version), None
-            if api == 'cirq.qasm':
-                # no qubit order argument: the default order is the sorted one
-                return cirq.qasm(circuit, args=cirq.QasmArgs(precision=precision, version=version)), None
-            return str(cirq.QasmOutput(circuit.all_operations(), tuple(order), precision=precision, version=version)), None
-    except Exception as e:       # noqa
-        return None, e
-
-
-def draw_config(rng, qs):
-    version = rng.choice(['2.0', '2.0', '3.0'])
-    precision = rng.choice([10, 10, 10, 7, 5, 3])
-    api = rng.choice(APIS)
-    order = list(qs)
-    r = rng.random()
-    if api == 'cirq.qasm':
-        order = sorted(qs)
-    elif r < 0.3:
-        order = list(reversed(order))
-    elif r < 0.6:
-        rng.shuffle(order)
-    return dict(version=version, precision=precision, api=api, order=order)
-
-
-QASM_FAMILIES = ['XPow', 'YPow', 'ZPow', 'HPow', 'CZPow', 'CXPow', 'CYPow', 'SwapPow', 'ISwapPow', 'XXPow', 'YYPow', 'ZZPow',
-                 'CCZPow', 'CCXPow', 'CCYPow', 'PI', 'Rx', 'Ry', 'Rz', 'MS', 'FSim', 'PhasedFSim', 'PhasedX', 'PhasedXZ',
-                 'PhasedISwap', 'Givens', 'CSwap', 'GlobalPhase', 'Diagonal', 'QFT', 'PhaseGrad', 'Matrix', 'Matrix', 'Identity', 'Perm',
-                 'Ctrl']
-
-
-def run(ctx):
-    cirq = env.import_cirq()
-    ctx.rule = ('programs = (generated circuit over the gate vocabulary incl. 1-3 qubit MatrixGates, controlled gates, every family '
-                'with a _qasm_ rule at its special and at generic exponents) x (API: Circuit.to_qasm / cirq.qasm / QasmOutput) x '
-                '(version 2.0 / 3.0) x (precision 3,5,7,10) x (qubit order: given, reversed, shuffled); non-trivial = >= 2 operations '
-                'sharing a qubit and >= 1 non-diagonal gate (unitary streams), >= 1 measurement and >= 1 gate (measurement streams); '
-                'distinct by canonical (circuit, configuration)')
-    ctx.assumptions += ['transcription of qelib1.inc / stdgates.inc in coq/Vendor/Qasm.v', 'the Python reader of the emitted subset',
-                        'docstring transcription in coq/Gates/GateSpecs.v', 'float tolerance 10^(1-precision) * max(1, angles/10) + 1e-9']
-    err = tables.regenerate(['EigenTables'])
-    if err['EigenTables']:
-        ctx.mark_broken('table:EigenTables', err['EigenTables'])
-    ctx.set_obligations(coq.compile_props('C19'))
-    k = 1 if ctx.tier == 'quick' else 10
-    checks = []
-    unitary_stream(ctx, cirq, checks, 120 * k)
-    evaluate(ctx, checks)
-
-
-def evaluate(ctx, checks):
-    SH = 30
-    shards = []
-    for s0 in range(0, len(checks), SH):
-        part = checks[s0:s0 + SH]
-        text = PRE + 'Definition checks : list bool := [\n' + ';\n'.join(c[1] for c in part) + '].\nEval vm_compute in failing (fun b => b) checks.\n'
-        shards.append((f'c19_{ctx.seed}_{s0 // SH}', text))
-    outs = coq.coq_eval_many(shards, workers=12)
-    for si, out in enumerate(outs):
-        for idx in coq.parse_nat_list(coq.parse_evals(out)[0]):
-            stream, _, desc, rep = checks[si * SH + idx]
-            rep = dict(rep)
-            ctx.disagree(f'correspondence:{stream}', desc, rep.pop('signature'), desc, dict(kind=stream, **rep))
-
-
-def read_or_report(ctx, stream, text, sig_base, desc, rep):
-    """Parse; a malformed text is a failing input, an unsupported construct is a harness gap."""
-    try:
-        return read_qasm(text)
-    except Malformed as e:
-        msg = str(e)
-        tag = msg.split('|')[1] if '|' in msg else 'malformed'
-        sig = tag if tag.startswith('undefined-gate') else f'{sig_base}:{tag}'
-        ctx.disagree(f'correspondence:{stream}', msg, sig, f'{desc}: the emitted text is not OpenQASM: {msg.split("|")[0]}',
-                     dict(kind=stream, qasm=text, **rep))
-    except Unsupported as e:
-        ctx.mark_broken('reader:unsupported', f'{e}\n{text[:1500]}')
-    return None
-
-
-def unitary_stream(ctx, cirq, checks, n):
-    rng = ctx.rng
-    for _ in range(n):
-        case = circuits.random_case(rng, max_wires=4, max_ops=7, qudits=False, families=QASM_FAMILIES)
-        if any(d != 2 for g in [o.g for o in case.ops] for d in g.shape):
-            continue
-        circuit, qs = case.circuit(cirq)
-        cfg = draw_config(rng, qs)
-        fams = sorted({o.g.fam for o in case.ops})
-        rep = dict(case=case.key(), config={k: (v if k != 'order' else [q.x for q in v]) for k, v in cfg.items()})
-        text, exc = export(cirq, circuit, cfg['order'], cfg['api'], cfg['version'], cfg['precision'])
-        desc = f'{cfg["api"]}(version={cfg["version"]}, precision={cfg["precision"]}, order={[q.x for q in cfg["order"]]}) of {circuit!r}'[:600]
-        if exc is not None:
-            ctx.count('unitary', [case.key(), rep['config']], False)
-            ctx.disagree('correspondence:unitary', f'{type(exc).__name__}: {exc}', f'export-raises:{type(exc).__name__}:' + '+'.join(fams),
-                         f'{desc} raises {type(exc).__name__}: {str(exc)[:200]} (every operation here has a unitary and a decomposition)',
-                         dict(kind='unitary', **rep))
-            continue
-        P = read_or_report(ctx, 'unitary', text, 'unitary', desc, rep)
-        if P is None:
-            continue
-        order_idx = [q.x for q in cfg['order']]
-        ok_layout = P.nqubits == len(qs) and not P.cregs
-        ctx.count('unitary', [case.key(), rep['config']], case.nontrivial(),
-                  sample=dict(circuit=repr(circuit)[:300], config=rep['config'], qasm_lines=len(text.split('\n')), instructions=len(P.stmts)))
-        sh = case.coq_shape(order_idx)
-        ref = case.coq_ops(order_idx)
-        tol = tolerance(cfg['precision'], P.nparams)
-        v3 = 'true' if P.version == '3.0' else 'false'
-        expr = (f'{"true" if ok_layout else "false"} && match qunitary FOps {len(qs)} {program_term(P)} with\n'
-                f' | Some u => fcll_close_phase {tol} u (circ_unitary FOps {sh} {ref})\n | None => false end')
-        checks.append(('unitary', expr, f'{desc}: the parsed text does not perform the circuit unitary up to global phase within {float.fromhex(tol.strip("()")):.3g}',
-                       dict(signature='unitary:' + '+'.join(fams), qasm=text, **rep)))
-
-
-def replay(ctx, data):
-    print('replay: the failing case is stored in the file; re-run `VERIF_SEED=%s ./check C19` to reproduce' % data.get('seed'))
-    return False
